@@ -416,7 +416,6 @@ func startE2E(r *rec, dir string, shard int) (*e2eEnv, error) {
 	}
 	browse /br
 	templates /t .html
-	gzip
 	ext .html .txt
 	internal /static/internal
 	status 404 /hidden
@@ -425,7 +424,9 @@ func startE2E(r *rec, dir string, shard int) (*e2eEnv, error) {
 https://c19.test:%d {
 	verifc19
 	bind 127.0.0.1
-	tls %s %s
+	tls %s %s {
+		no_redirect
+	}
 	root %s
 	log / %s "%s"
 	push
@@ -445,7 +446,7 @@ https://c19.test:%d {
 	if err != nil {
 		return nil, err
 	}
-	e.conn.Timeout = 90 * time.Second
+	e.conn.Timeout = 45 * time.Second
 	return e, nil
 }
 
@@ -547,7 +548,12 @@ func (e *e2eEnv) runFCGI(id int, s *fcgiScript) {
 	raw := lib.BuildReq(method, fmt.Sprintf("/php/x.php?c=%d", id), e.plain, body)
 	r.journal(fmt.Sprintf("fcgi script=%s method=%s", s.Name, method), s.Out)
 	before := atomic.LoadInt64(&e.fcgi.accepts)
+	// fresh connection per responder case: a hostile responder can make the
+	// server emit interim (1xx) or unframed responses, which must not bleed
+	// into the next case
+	e.conn.Close()
 	resp := e.conn.Do(method, raw)
+	e.conn.Close()
 	r.eval(1)
 	r.count("fcgi_cases", 1)
 	if atomic.LoadInt64(&e.fcgi.accepts) > before {
@@ -737,13 +743,26 @@ func (e *e2eEnv) runReq(id int, rc *reqCase) {
 	r.journal(fmt.Sprintf("req class=%s %s", rc.Class, rc.Desc), firstN(rc.Raw, 1500))
 	e.fcgi.cur.Store((*fcgiScript)(nil))
 	hitsBefore := atomic.LoadInt64(&trace.hits)
+	t0 := time.Now()
 	resp := e.conn.Do(rc.Method, rc.Raw)
+	if d := time.Since(t0); d > 5*time.Second {
+		// diagnostics only (never part of a verdict)
+		r.count("req_slow_cases_over_5s", 1)
+		r.sample("slow-request", 3, map[string]interface{}{"class": rc.Class, "what": rc.Desc, "seconds": int(d.Seconds()), "head": string(firstN(rc.Raw, 300)), "err": fmt.Sprint(resp.Err)})
+	}
 	r.eval(1)
 	r.count("req_cases", 1)
 	r.count("req_class/"+rc.Class, 1)
 	wit := map[string]interface{}{"class": rc.Class, "what": rc.Desc, "request_len": len(rc.Raw), "request_head": string(firstN(rc.Raw, 700))}
+	if resp.Err != nil || resp.Status < 200 {
+		e.conn.Close()
+	}
 	if resp.Err != nil {
 		r.count("req_no_response", 1)
+		r.count("req_no_response_class/"+rc.Class, 1)
+		if rc.Class != "random-combination" {
+			r.sample("request-without-response", 3, map[string]interface{}{"what": rc.Desc, "client_error": resp.Err.Error()})
+		}
 		wit["client_error"] = resp.Err.Error()
 	} else {
 		r.count("req_answered", 1)
@@ -967,7 +986,7 @@ func subE2E(args []string) int {
 	thorough := args[2] == "thorough"
 	seed, _ := strconv.ParseUint(args[3], 10, 64)
 	dir := args[4]
-	r := newRec("e2e", dir, fmt.Sprintf("e2e-%d", shard), 400000)
+	r := newRec("e2e", dir, fmt.Sprintf("e2e-%d", shard), 100000)
 	e, err := startE2E(r, dir, shard)
 	if err != nil {
 		fmt.Fprintln(os.Stderr, "c19 e2e:", err)
